@@ -4,6 +4,9 @@ CONSTANTS
   Vals = {1, 2, 3, 4}
   HwMax = 3
   HwModes = {"clip", "refuse"}
+  Excs = {"badvalue", "hardware", "other"}
+  FM = "q"
+  FDepth = 3
   Depth = 5
   Depth2 = 4
   Layouts = {"combined", "separate"}
